@@ -494,3 +494,41 @@ def r15_9(ctx):
                       expected="attribute writes only in __init__, no in-place operators", found="; ".join(sorted(set(bad))[:4]), fi=c.methods.get("__init__") or next(iter(c.methods.values())), sample={"class": c.name})
     if n == 0:
         raise AnalysisError("no spline classes found in rockit/splines/spline.py")
+
+
+@rule("R15.10", min_instances=2, desc="the spline class the certificate is built from (BSpline) subtracts in operand order: `c - s` (constant minus state polynomial, reflected operator) is -(s - c), not s - c")
+def r15_10(ctx):
+    import os
+    prog = ctx.prog
+    mod = prog.modules["rockit/splines/spline.py"]
+    cls = mod.classes.get("BSpline")
+    if cls is None:
+        raise AnalysisError("class BSpline missing in splines/spline.py")
+    raw = ast.parse(open(os.path.join(prog.root, mod.relpath)).read())
+    cdef = [c for c in raw.body if isinstance(c, ast.ClassDef) and c.name == "BSpline"][0]
+    aliases = {t.id: ast.unparse(st.value) for st in cdef.body if isinstance(st, ast.Assign) for t in st.targets if isinstance(t, ast.Name)}
+    K = lambda t: Norm(None).key(ast.parse(t, mode="eval").body)
+    for refl, fwd, good in (("__rsub__", "__sub__", ("other + -self", "-self + other", "-(self - other)", "-self.__sub__(other)", "(-self).__add__(other)", "-self.common(other, lambda a, b: a - b)")),):
+        if refl in aliases:
+            ctx.fail("BSpline.%s computes other - self" % refl, detail="reflected subtraction aliased to %s: `constant - polynomial` is certified as `polynomial - constant` (the negated expression is bounded)" % aliases[refl],
+                     expected="def %s(self, other): return other + (-self)" % refl, found="%s = %s" % (refl, aliases[refl]), fi=cls.methods.get(fwd) or next(iter(cls.methods.values())))
+            continue
+        f = cls.methods.get(refl)
+        if f is None:
+            # without a reflected operator Python raises TypeError for `constant - spline`: loud, not a wrong certificate
+            ctx.ok("BSpline.%s absent: constant - spline raises" % refl)
+            continue
+        o = f.params[1]
+        rets = [r.value for r in walk_no_nested(f.node) if isinstance(r, ast.Return) and r.value is not None]
+        keys = {K(g.replace("other", o)) for g in good}
+        ok = len(rets) == 1 and Norm(None).key(rets[0]) in keys
+        ctx.check(ok, "BSpline.%s computes other - self" % refl, detail="`constant - polynomial` is not the negated `polynomial - constant`", expected="return other + (-self)", found="; ".join(ast.unparse(r) for r in rets), fi=f)
+    # the forward operator keeps its operand order
+    f = cls.methods.get("__sub__")
+    if f is None and "__sub__" not in aliases:
+        raise AnalysisError("BSpline.__sub__ missing")
+    if f is not None:
+        o = f.params[1]
+        rets = [r.value for r in walk_no_nested(f.node) if isinstance(r, ast.Return) and r.value is not None]
+        good = {K(g.replace("other", o)) for g in ("self + -other", "-other + self", "self.common(other, lambda a, b: a - b)", "self.__add__(-other)")}
+        ctx.check(len(rets) == 1 and Norm(None).key(rets[0]) in good, "BSpline.__sub__ computes self - other", detail="operand order of the subtraction", expected="return self + (-other)", found="; ".join(ast.unparse(r) for r in rets), fi=f)
